@@ -190,6 +190,12 @@ func (rm *RpcMultiplexer) NewStreamReadWriter(
 				return nil, err
 			}
 			if !ok {
+				if err := ctx.Err(); err != nil {
+					// The reader's own context has ended as well: report that, so that a
+					// cancelled stream ends as Canceled / DeadlineExceeded whichever of the
+					// two signals its read loop happens to see first.
+					return nil, err
+				}
 				if err := rm.readErrorIfDone(); err != nil {
 					return nil, err
 				}
